@@ -33,6 +33,9 @@ def one(seed, checks):
         rc, o = sh("git -C /repo worktree add --detach %s HEAD" % repo)
         assert rc == 0, o
         rc, o = sh("git -C %s apply %s" % (repo, os.path.join(V, "seeded", seed, "patch.diff")))
+        if rc != 0:
+            # written against an earlier HEAD (before later fix: commits): merge it
+            rc, o = sh("git -C %s apply --3way %s" % (repo, os.path.join(V, "seeded", seed, "patch.diff")))
         assert rc == 0, o
         gm = os.path.join(ver, "harness", "go.mod")
         s = open(gm).read().replace("=> /repo", "=> " + repo)
